@@ -37,6 +37,7 @@ var checks = []Check{
 		Technique:   "exhaustive enumeration of traffic/fault histories on the real processors under a controlled scheduler",
 		Assumptions: append([]string{"counters are process-wide; each execution compares against a snapshot taken at its own start", "default schedule per operation"}, engineAssumptions...),
 		Jobs: []Job{
+			{Pkg: "proc/tcp", Scenarios: []string{"C20/tcp-concurrent-close"}, Shards: 8, QuickS: 90, ThoroughS: 240},
 			{Pkg: "proc/redis", Scenarios: []string{"C20/stop-racing-request"}, Shards: 16, QuickS: 120, ThoroughS: 240},
 			{Pkg: "proc/redis", Scenarios: []string{"C20/redis"}, Shards: 16, QuickS: 90, ThoroughS: 240},
 			{Pkg: "proc/tcp", Scenarios: []string{"C20/tcp"}, Shards: 16, QuickS: 60, ThoroughS: 240},
